@@ -37,8 +37,22 @@ end
 
 /-- A right-hand side: call-free, one call with call-free actuals, or (class v3, `pk`) operators
     over calls of pure functions. -/
+def argsOk5 (pk : Bool) (ps imp : List String) (args : List X.Expr) : Bool :=
+  args.all pureE || (pk && args.all (ppE ps imp))
+
+/-- A call of one of the procedures `ps` whose actuals are call-free or (class v3) contain calls of
+    pure functions. -/
+def callE5 (pk : Bool) (ps imp : List String) : X.Expr → Bool
+  | .call f args => ps.contains f && argsOk5 pk ps imp args
+  | _ => false
+
+theorem callE_callE5 (pk : Bool) (ps imp : List String) (e : X.Expr) (h : callE ps e = true) : callE5 pk ps imp e = true := by
+  cases e <;> simp [callE] at h
+  simp only [callE5, argsOk5, Bool.and_eq_true, Bool.or_eq_true, List.all_eq_true, List.contains_iff_mem]
+  exact ⟨h.1, Or.inl h.2⟩
+
 def rhs5 (pk : Bool) (ps imp : List String) (e : X.Expr) : Bool :=
-  pureE e || callE ps e || (pk && ppE ps imp e)
+  pureE e || callE5 pk ps imp e || (pk && ppE ps imp e)
 
 /-- A condition: call-free, or (class v3) operators over calls of pure functions. -/
 def cond5 (pk : Bool) (ps imp : List String) (e : X.Expr) : Bool :=
@@ -61,7 +75,7 @@ def okS5 (pk : Bool) (ps imp : List String) (ρ : String → Option Word) : X.St
   | .seq ss => okS5L pk ps imp ρ ss
   | .assign _ e => rhs5 pk ps imp e
   | .syscall id args => decide (id < 3) && args.all pureE
-  | .call f args => (ps.contains f || valSys ρ f) && args.all pureE
+  | .call f args => (ps.contains f && argsOk5 pk ps imp args) || (valSys ρ f && args.all pureE)
   | .assignSub _ i e => pureE i && pureE e
 def okS5L (pk : Bool) (ps imp : List String) (ρ : String → Option Word) : List X.Stmt → Bool
   | [] => true
@@ -75,11 +89,11 @@ theorem okS4_okS5 (pk : Bool) (ps imp : List String) (ρ : String → Option Wor
   | .ret e, h => by
     simp only [okS4, Bool.or_eq_true] at h
     simp only [okS5, rhs5, Bool.or_eq_true]
-    exact Or.inl h
+    exact Or.inl (h.imp id (callE_callE5 pk ps imp e))
   | .assign _ e, h => by
     simp only [okS4, Bool.or_eq_true] at h
     simp only [okS5, rhs5, Bool.or_eq_true]
-    exact Or.inl h
+    exact Or.inl (h.imp id (callE_callE5 pk ps imp e))
   | .ite c t e, h => by
     simp only [okS4, Bool.and_eq_true] at h
     simp only [okS5, cond5, Bool.and_eq_true, Bool.or_eq_true]
@@ -95,8 +109,8 @@ theorem okS4_okS5 (pk : Bool) (ps imp : List String) (ρ : String → Option Wor
   | .syscall _ _, h => by simp only [okS4] at h; simp only [okS5]; exact h
   | .call _ _, h => by
     simp only [okS4, Bool.and_eq_true] at h
-    simp only [okS5, Bool.and_eq_true, Bool.or_eq_true]
-    exact ⟨Or.inl h.1, h.2⟩
+    simp only [okS5, argsOk5, Bool.and_eq_true, Bool.or_eq_true]
+    exact Or.inl ⟨h.1, Or.inl h.2⟩
   | .assignSub _ _ _, h => by simp only [okS4] at h; simp only [okS5]; exact h
 theorem okS4L_okS5L (pk : Bool) (ps imp : List String) (ρ : String → Option Word) : (ss : List X.Stmt) → okS4L ps ss = true → okS5L pk ps imp ρ ss = true
   | [], _ => rfl
